@@ -789,6 +789,9 @@ def expect_pop(rep, rule, key, got, spec_terms, desc):
         if got.val != 0:
             rep.violated(rule, key, "%s: result is the constant %d" % (desc, got.val))
             return
+    elif isinstance(got, Opaque) and "pop" in got.info and got.info.get("plus"):
+        rep.violated(rule, key, "%s: the result is a count plus the constant %d" % (desc, got.info["plus"]), witness={"kind": "bit"})
+        return
     elif isinstance(got, Opaque) and "pop" in got.info:
         terms = got.info["pop"]
     elif isinstance(got, Int) and got.sf is not None and len(got.sf) == 1 and got.sf[0][0] == 0:
@@ -1569,6 +1572,9 @@ def expect_popsum(rep, rule, key, got, spec_terms, desc):
         if terms is None:
             rep.violated(rule, key, "%s: result is the constant %d" % (desc, got.val))
             return
+    elif isinstance(got, Opaque) and "pop" in got.info and got.info.get("plus"):
+        rep.violated(rule, key, "%s: the result is a count plus the constant %d" % (desc, got.info["plus"]), witness={"kind": "bit"})
+        return
     elif isinstance(got, Opaque) and "pop" in got.info:
         terms = got.info["pop"]
     elif isinstance(got, Int) and got.sf is not None and (len(got.sf) == 0 or (len(got.sf) == 1 and got.sf[0][0] == 0 and len(got.sf[0][2]) < (1 << got.sf[0][1]))):
@@ -1879,6 +1885,73 @@ def slice_hamming_lemmas(F, rep, rule="C15.2"):
             expect_popsum(rep, rule, "exact/hamming_dist/" + vk, r, spec,
                           "hamming_dist of two %d-base views (starts %d / %d, is_rc %s / %s) counts exactly the positions where the views differ" % (ln, st1, st2, rc1, rc2))
         guarded(rep, rule, "exact/hamming_dist/" + vk, "hamming_dist", f)
+
+    # views whose length is not a multiple of 32 end in bases that the pinned tree compares one by one (a branch per base): those last bases
+    # are given fixed values here (some equal, some different), everything before them stays symbolic.  `self` is a WHOLE string (the view
+    # covers its backing string exactly), `other` a prefix of a longer one, and the other way round — the shapes in which a fast path for
+    # whole strings sees padding on one side and real bases on the other.
+    TAILA = (0, 1, 2, 3, 0, 1, 2, 3)
+    TAILB = (0, 1, 3, 3, 1, 1, 2, 0)
+
+    def backing(name, nbases, view_len, tail):
+        ws = dt.words(name, nbases)
+        for j, b in enumerate(tail):
+            p_ = view_len - len(tail) + j
+            w, hi, lo = p_ // 32, 63 - 2 * (p_ % 32), 62 - 2 * (p_ % 32)
+            ws[w][hi], ws[w][lo] = (ONE if b & 2 else ZERO), (ONE if b & 1 else ZERO)
+        return dt.mk(ws, nbases)
+    for (la_back, lb_back, ln) in ((40, 140, 40), (140, 40, 40), (72, 72, 72), (72, 100, 72)):
+        vk = "whole/self-backing=%d/other-backing=%d/len=%d" % (la_back, lb_back, ln)
+
+        def f2(la_back=la_back, lb_back=lb_back, ln=ln, vk=vk):
+            a = mkview(Cell(backing("s", la_back, ln, TAILA), "back-s"), 0, ln, False)
+            b = mkview(Cell(backing("t", lb_back, ln, TAILB), "back-t"), 0, ln, False)
+            r, _ = run_inst(F, key, [Ref(Cell(a, "self")), Ref(Cell(b, "other"))])
+            nblk = ln - len(TAILA)
+            spec = []
+            for i in range(nblk):
+                alo, ahi = view_base_bits("s", 0, ln, False, i)
+                blo, bhi = view_base_bits("t", 0, ln, False, i)
+                spec.append(t_or(t_xor(ahi, bhi), t_xor(alo, blo)))
+            ndiff_tail = sum(1 for x, y in zip(TAILA, TAILB) if x != y)
+            # the fixed tail contributes a constant: fold it into the comparison as that many constant-one terms
+            spec += [ONE] * ndiff_tail
+            got = r
+            if isinstance(r, Int) and r.is_conc():
+                got = r
+            expect_count(rep, rule, "exact/hamming_dist/" + vk, got, spec,
+                         "hamming_dist of a %d-base string (backing %d bases) and a %d-base prefix view (backing %d bases) counts exactly the positions where they differ" % (
+                             ln, la_back, ln, lb_back))
+        guarded(rep, rule, "exact/hamming_dist/" + vk, "hamming_dist", f2)
+
+
+def expect_count(rep, rule, key, got, spec_terms, desc):
+    """a count = (sum of counted 0/1 terms) + constant; spec_terms may contain the constant ONE"""
+    const = sum(1 for t in spec_terms if t is not TOP and t == ONE)
+    sym = [t for t in spec_terms if not (t is not TOP and (len(t) == 0 or t == ONE))]
+    rep.evaluations += 1
+    terms, c = None, 0
+    if isinstance(got, Int) and got.is_conc():
+        terms, c = [], got.val
+    elif isinstance(got, Opaque) and "pop" in got.info:
+        terms, c = list(got.info["pop"]), got.info.get("plus", 0)
+    elif isinstance(got, Int) and got.sf is not None and len(got.sf) == 1 and got.sf[0][0] == 0 and len(got.sf[0][2]) < (1 << got.sf[0][1]):
+        terms = list(got.sf[0][2])
+    if terms is None:
+        rep.inconclusive(rule, key, "%s: result %r is not a recognisable count" % (desc, got))
+        return
+    c += sum(1 for t in terms if t is not TOP and t == ONE)
+    terms = [t for t in terms if not (t is not TOP and (len(t) == 0 or t == ONE))]
+    if any(t is TOP for t in terms):
+        rep.inconclusive(rule, key, "%s: unknown bit among the counted terms" % desc)
+        return
+    a = sorted(bv.t_str(t) for t in terms)
+    b = sorted(bv.t_str(t) for t in sym)
+    if a == b and c == const:
+        rep.holds(rule, key, desc)
+    else:
+        rep.violated(rule, key, "%s: counted %d symbolic position(s) + %d, specified %d + %d (extra %s, missing %s)" % (
+            desc, len(a), c, len(b), const, [x for x in a if x not in b][:2], [x for x in b if x not in a][:2]), witness={"kind": "count"})
 
 
 def slice_getkmer_lemmas(F, rep, rule="C15.1", quick=True):
